@@ -29,6 +29,9 @@ func checkC01(c *Ctx, r *Report, tier string) {
 	c01R5(c, r, x)
 	r.Rule("C01.R6", "a rejected operation leaves nothing behind in the graph: no error return of an index method is reachable after a call that links, unlinks, prunes, stores or removes", 3)
 	noMutationBeforeErrorReturn(c, r, "C01.R6")
+	r.Rule("C01.R7", "a restored index answers from restored state only: every successful return of the index reader is preceded by a reset of maps, counters and entry point; the visited sets of the traversals are seeded before the traversal", 5)
+	restoreResetsBeforeSuccess(c, r, "C01.R7")
+	visitedSetSeeded(c, r, "C01.R7")
 }
 
 // --- R1 ---------------------------------------------------------------------------
